@@ -39,6 +39,11 @@ func (P *Prog) verifyFunction(fn *ssa.Function, con *Contract) *FuncResult {
 	mode := modeOf(con)
 	vc := newVC(P, fn, mode)
 	vc.mathInts = con.opt("mathints")
+	for _, n := range strings.Split(con.Options["reveal"], ",") {
+		if n != "" {
+			vc.revealed[n] = true
+		}
+	}
 	res := &FuncResult{Name: shortFuncName(fn), Contract: con, Mode: mode, VC: vc}
 	defer func() {
 		res.Obls = vc.obls
@@ -80,6 +85,17 @@ func (P *Prog) verifyFunction(fn *ssa.Function, con *Contract) *FuncResult {
 		}
 		fr.freeVar[fv.Name()] = v
 		names[fv.Name()] = vc.sval(v, fv.Type())
+		// captured variables are held by reference: never nil; in specifications the name means the
+		// captured variable's value at entry
+		if v.P != nil && isPointer(fv.Type()) {
+			vc.assume(st, tNot(tEq(v.P.Ref, mk("0", sortRef))))
+			el := derefType(fv.Type())
+			if _, isB := el.Underlying().(*types.Basic); isB {
+				lv := vc.loadPlace(st, v.P)
+				vc.assumeWF(st, lv, el)
+				names[fv.Name()] = SVal{T: lv, GoT: el}
+			}
+		}
 	}
 	var pkg *types.Package
 	if vc.pkg != nil {
